@@ -146,6 +146,11 @@ def job_c12(args):
         out["scale_gen"] = sg
         peak("scale_gen_err", np.abs(ysg - sg * z1) if len(ysg) == len(z1) else np.array([np.inf]), abs(sg))
 
+        # --- scale 0: proportionality holds for the factor 0 too - the output is silence, of the same length
+        y0 = R(n1, scale="0")
+        out["scale_zero_err"] = float(np.abs(y0).max()) if len(y0) == len(z1) and len(y0) else (float("inf") if len(y0) != len(z1) else 0.0)
+        out["where"]["scale_zero_err"] = int(np.argmax(np.abs(y0))) if len(y0) else 0
+
         # --- DC: a full-scale constant converges to the same constant (times scale)
         ydc = R(np.ones(N))
         peak("dc_err", np.abs(ydc[H:len(ydc) - H] - 1.0))
@@ -238,6 +243,7 @@ CLAUSES = [  # (key in the job result, what, needs-rational)
     ("sup_noise", "superposition, broadband pair"),
     ("scale_pow2_err", "io_spec.scale = power of two (relative to the factor)"),
     ("scale_gen_err", "io_spec.scale general factor (relative to the factor)"),
+    ("scale_zero_err", "io_spec.scale = 0 (the output must be silence)"),
     ("dc_err", "DC convergence (full-scale constant)"),
     ("dc_scaled_err", "DC convergence with io_spec.scale (relative to the factor)"),
     ("shift_impl_err", "shift covariance at the implementation period (M_P in -> L_P out), broadband, beyond the horizon"),
